@@ -15,6 +15,7 @@ from symx.harness import (Wz, cone_set, dotz, frac_json, from_frac_json, make_or
 from symx.sym import HarnessError, Sym
 
 PROPERTY = "C11"
+from checks.trans import transition_task  # noqa: E402,F401  (pessimistic-set clause)
 
 
 def _mods():
@@ -109,6 +110,9 @@ def exact_point_oracle(W, p, lo, hi, margin=Fraction(0)):
 
 def replay(case):
     cr, uu = _mods()
+    if case["kind"] == "transition":
+        from checks import trans
+        return trans.replay(case)
     if case["kind"] == "rectlevel":
         return {"reproduced": True, "detail": case.get("detail")}
     W = np.array(case["W"], dtype=float)
@@ -225,6 +229,11 @@ def tasks(tier, seed):
                        "weight": 30 if shape == "rect" else 2})
     for cone, W in cone_set(tier, seed=seed):
         ts.append({"id": f"rectlevel[{cone}]", "fn": "rectlevel_task", "args": {"cone": cone, "W": W.tolist(), "tier": tier}})
+    # the pessimistic Pareto set of VOGP / ε-PAL / VOGP_AD over free PD tables
+    from checks import trans
+    for t in trans.tasks_for("C11", tier, seed):
+        if "orthant2" in t["id"] or "theta60" in t["id"] or tier != "quick":
+            ts.append(t)
     return ts
 
 
